@@ -238,6 +238,28 @@ VMat(e) ==
       failing == {k \in 1..Len(bad) : ~bad[k][2]}
   IN IF failing = {} THEN OK ELSE <<"C19." \o bad[MinOf(failing)][1], e.t>>
 
+\* C19  ev = "sdiv": s = list of <<v_me, x_me, r_vec_me, r_mat_diag_me, r_mat_offdiag_me>>: scalar_div of operands in [-2, 2]
+\* that are too small for the decimal format.  The quotient is formed in the log domain; tolerance 1e-5 * max(1, |q|).
+\* Quotients beyond f32's range (ln q > 88) are out of scope; the off-diagonal entry divides an exact 0.
+Ln1p1em5 == Ln(Add(One, D(0, 0, 1000, 0, 0)))
+SmallAbs(r) == \/ r[1] = 0
+               \/ (r[1] \in {1, 2} /\ r[4] + 23 <= -16)
+               \/ (r[1] \in {1, 2} /\ r[4] + 23 <= 2 /\ Cmp(Abs(FxOfME(r)), Add(D(0, 0, 1000, 0, 0), SpecEps)) <= 0)
+QuotOk(v, x, r) ==
+  IF v[1] = 0 THEN SmallAbs(r)
+  ELSE LET lq == Sub(LnME(v), LnME(x))  sgn == v[2] * x[2] IN
+       IF Cmp(lq, FromInt(88)) > 0 THEN TRUE
+       ELSE IF Cmp(lq, Z) > 0 THEN r[1] = 1 /\ r[2] = sgn /\ Cmp(Abs(Sub(LnME(r), lq)), Add(Ln1p1em5, SpecEps)) <= 0
+       ELSE IF Cmp(lq, FromInt(-30)) < 0 THEN SmallAbs(r)
+       ELSE r[1] \in {0, 1, 2} /\ (r[1] = 0 \/ r[4] + 23 <= 2) /\
+            LET q == Exp(lq)  rf == IF r[1] = 0 \/ r[4] + 23 <= -60 THEN Z ELSE FxOfME(r) IN
+            Cmp(Abs(Sub(rf, IF sgn < 0 THEN Neg(q) ELSE q)), Add(D(0, 0, 1000, 0, 0), SpecEps)) <= 0
+VSdiv(e) ==
+  FirstBad("C19.scalar_div-small-operands",
+    {i \in 1..Len(e.s) : LET v == e.s[i][1]  x == e.s[i][2] IN
+       v[1] \in {0, 1, 2} /\ x[1] \in {1, 2} /\
+       ~(QuotOk(v, x, e.s[i][3]) /\ QuotOk(v, x, e.s[i][4]) /\ SmallAbs(e.s[i][5]))})
+
 \* C18  ev = "cbrt": s = list of <<x_me, t_me, t_bits, t(-x)_bits>>
 UlpBudget(b)  == IF SubSeq(b, 1, 4) = "fast" THEN 1 ELSE 2          \* C20: exact build = libm within 2 ulp
 VCbrt(e) == FirstBad("C18.cbrtf",
@@ -353,6 +375,7 @@ Verdict(e) ==
     [] e.ev = "tfrt"   -> VTfrt(e)
     [] e.ev = "tfanchor" -> VTfAnchor(e)
     [] e.ev = "mat"    -> VMat(e)
+    [] e.ev = "sdiv"   -> VSdiv(e)
     \* (a C07 run reuses the C18 family for its totality events only: accuracy is not C07's business)
     [] e.ev \in {"cbrt", "pow", "exp"} /\ e.p = "C07" -> OK
     [] e.ev = "cbrt"   -> VCbrt(e)
